@@ -1,7 +1,7 @@
 #!/bin/bash
 # run_mutant_all.sh <Cxx> <k> : apply /tmp/mut/<Cxx>/<k>/patch.diff in the scratch worktree /tmp/wt/<Cxx>,
 # run every quick check against that worktree (outputs under /tmp/mutrun/<Cxx>-<k>), restore the worktree.
-P="$1"; K="$2"; WT=/tmp/wt/$P; D=/tmp/mut/$P/$K; OUT=/tmp/mutrun/$P-$K
+P="$1"; K="$2"; WT=/tmp/wt/$P; D=${MUTROOT:-/tmp/mut}/$P/$K; OUT=/tmp/mutrun/${TAG:-}$P-$K
 mkdir -p "$OUT"
 /verif/tools/verify_mutant.sh "$D" "$WT" > "$OUT/verify.txt" 2>&1
 cd "$WT" && git apply "$D/patch.diff" || exit 1
